@@ -58,6 +58,18 @@ Theorem C02_tree_semantics : forall (p : list stmt) (name : bytes) (pos lfs : li
 Proof. first [exact T1Proofs.T1_program_iff | apply T1Proofs.T1_program_iff]. Qed.
 Print Assumptions C02_tree_semantics.
 
+(* every statement preserves the slot discipline SR (compile-time table = scopes of the environment, VM stack = values of the live variables) *)
+Theorem C02_statement_simulation :
+  forall g : prog, nlen (g_consts g) < 2 ^ 64 -> forall st : stmt, StmtP g st.
+Proof. first [exact T1Proofs.stmt_sim | apply T1Proofs.stmt_sim]. Qed.
+Print Assumptions C02_statement_simulation.
+
+(* every expression, including embedded assignments, in evaluation order *)
+Theorem C02_expression_simulation :
+  forall g : prog, nlen (g_consts g) < 2 ^ 64 -> forall e : expr, SimP g e.
+Proof. first [exact T1Expr.expr_sim | apply T1Expr.expr_sim]. Qed.
+Print Assumptions C02_expression_simulation.
+
 (* non-vacuity: shadowing, own-initialiser, fields versus variables, embedded assignment *)
 Example C02_example :
   match snd (interpret (bs "input") (bs "var x = 1 def b { var x = x + 1; y = x; def c { var x = 10; z = y + x; y = (x = 3) + x } print y } print x") false false false) with
